@@ -378,6 +378,7 @@ func checkC14(c *Ctx) {
 		}
 	}
 	ruleDispatch(c, dv, "R14.5", true, false)                   // every press and release reaches the held-key bookkeeping
+	c.importRules(noSharedStateRules, []string{"R16.5"}, "R14.7") // the held-key set of a device starts empty: nothing carried over from another device or an earlier attach of the same one
 	c.importRules(configIntactRules, []string{"R3.7"}, "R14.6") // the exit sequence compared against is the parsed one
 	c.MinCount("R14.1", 3)
 	c.MinCount("R14.2", 2)
@@ -709,11 +710,14 @@ func ruleKeyTrackerProtocol(c *Ctx, dv *dev) {
 			}
 		} else if press {
 			// R14.4 nothing else swallowed
-			isAction, isNote := false, false
+			isAction, isNote, lookedUp := false, false, false
 			for _, a := range p.Atoms {
 				cnd, taken := a.Cond, a.Taken
 				for cnd.Op == "unop" {
 					cnd, taken = cnd.Args[0], !taken
+				}
+				if cnd.Op == "lookupok" && (cnd.Args[0].LoadsField(dv.cfgField["ActionMapping"]) || cnd.Args[0].LoadsField(dv.fields["mapping"])) {
+					lookedUp = true
 				}
 				if cnd.Op == "lookupok" && taken {
 					if cnd.Args[0].LoadsField(dv.cfgField["ActionMapping"]) {
@@ -724,7 +728,13 @@ func ruleKeyTrackerProtocol(c *Ctx, dv *dev) {
 				}
 			}
 			k := "device.handleKEYEvent/other-presses-not-swallowed"
-			if isAction {
+			if !lookedUp && p.End == "return" {
+				// a press that returns before the key was looked up at all (and is not the completing press): a filter in front
+				// of the dispatch - "this key is already down" judged by a table keyed differently from the note tracker - drops
+				// the press of a second holder
+				cnt[k]++
+				bad[k] = "a key press returns before the key is looked up in the action and note mappings, without completing the exit sequence: the press is dropped (" + atomsString(p) + ")"
+			} else if isAction {
 				cnt[k]++
 				found := false
 				for _, e := range p.Effects {
